@@ -1,5 +1,5 @@
 import Comdex.Base.Line
-import Comdex.Model.AmmMatch
+import Comdex.Model.AmmPool
 /-! Driver for the batch-matching model (property C05).
 
 Lines (tab separated, after the sequence number):
@@ -13,10 +13,23 @@ Lines (tab separated, after the sequence number):
         real SortOrders(orders) ; DistributeOrderAmountToOrders(orders, amt, p)
   amm.op fill <id> <amt> <p> <matchable|-> <ok|panic> <qcd|-> <results>
         real MatchableAmount(order, p) ; FillOrder(order, amt, p)
+  amm.op first <prec> <price|none> <ok|nomatch|panic> <qcd|-> <results>
+        real NewOrderBook(orders) ; FindMatchPrice(ob.MakeView(), prec) ; MatchAtSinglePrice(price)   (keeper's first batch)
+  amm.fmp <prec> <price|none>                       real FindMatchPrice(NewOrderBook(orders).MakeView(), prec)
+  amm.fmpx <prec> <price|none>                      the same at a precision the order prices are not ticks of (compared, not monitored)
+  amm.view <price> <hb|none> <ls|none> <buyOver> <sellUnder>
+        real MakeView: HighestBuyPrice, LowestSellPrice, BuyAmountOver(price,true), SellAmountUnder(price,true)
+  amm.tk <fn> <prec> <arg> <result>                 tick.go primitives: down (PriceToDownTick), up (UpTick), ptup (PriceToUpTick),
+        dn (DownTick), toidx (TickToIndex), fromidx (TickFromIndex), round (RoundPrice), hi (HighestTick), lo (LowestTick)
+  amm.pool <rx> <ry> <lowest> <highest> <prec> <buys> <sells>
+        real PoolBuyOrders / PoolSellOrders(NewBasicPool(rx, ry), DefaultOrderer, lowest, highest, prec); lists `price:amount,…`
+        monitors pool_within_reserves / pool_not_worse_than_curve on the REAL lists
+  amm.bp <fn> <rx> <ry> <price> <result|panic>      BasicPool: price, bo (BuyAmountOver), su (SellAmountUnder), bt (BuyAmountTo), st (SellAmountTo)
 results := `id:open:paid:received:matched` joined by `;`, every order of the sequence, ascending id.
 Prices are Dec raws.  After every op the model continues from the REAL resulting order states.
 
-Monitors (evaluated on the REAL results): base_conserved, quote_dust, fill_within_limits,
+Monitors (evaluated on the REAL results): base_conserved (only where the D2 ghost `matchLossless`/`ticksLossless` predicts the
+loss; base_conserved_unexplained for any other disagreement with the prediction), quote_dust, fill_within_limits,
 fill_price_within_limit, matched_receives_positive (definitions: `Comdex.Amm.Mon*` in the model file's
 companion section below — they are the decidable forms of the theorems of `Props/C05.lean`).
 -/
@@ -81,10 +94,17 @@ def project (pre : List Order) (after : List Order) : List Order :=
 def resetFills (os : List Order) : List Order := os.map fun o => { o with fills := 0 }
 
 /-- evaluate the monitors on real results -/
-def monitors (seq : String) (pre post : List Order) (q : Option Int) (outcome : String) (flags : List String) : List String :=
+def monitors (seq : String) (pre post : List Order) (q : Option Int) (outcome : String) (flags : List String)
+    (lossless : Bool := true) : List String :=
   let m0 := if outcome = "panic" then [s!"MON\t{seq}\tfill_within_limits"] else
             if monFillWithinLimits pre post then [] else [s!"MON\t{seq}\tfill_within_limits"]
-  let m1 := if monBaseConserved pre post then [] else [s!"MON\t{seq}\tbase_conserved"]
+  -- `lossless` is the ghost of `base_conserved_iff_lossless`, computed from the INPUT: it is false exactly on the books on which
+  -- defect D2 drops a remainder. Base coin not conserved where the ghost predicts it = the known finding `base_conserved`;
+  -- any disagreement between the real result and the prediction = `base_conserved_unexplained`.
+  let m1 := match monBaseConserved pre post, lossless with
+    | true, true => []
+    | false, false => [s!"MON\t{seq}\tbase_conserved"]
+    | _, _ => [s!"MON\t{seq}\tbase_conserved_unexplained"]
   let m2 := match q with
     | some q => if monQuoteDust pre post q then [] else [s!"MON\t{seq}\tquote_dust"]
     | none => if monUntouched pre post then [] else [s!"MON\t{seq}\tquote_dust"]
@@ -95,7 +115,8 @@ def monitors (seq : String) (pre post : List Order) (q : Option Int) (outcome : 
 
 /-- compare a model answer (already rendered) with the real one, then monitor the real one -/
 def finish (st : St) (seq : String) (modelHead : String) (modelPost : Option (List Order)) (implHead : String)
-    (outcome : String) (qcd : String) (res : String) (fillOp : Bool := false) (distOp : Bool := false) : St × List String :=
+    (outcome : String) (qcd : String) (res : String) (fillOp : Bool := false) (distOp : Bool := false)
+    (lossless : Bool := true) : St × List String :=
   let pre := st.orders
   let mpost := (modelPost.getD pre)
   let modelLine := s!"{modelHead}\t{showRes mpost}"
@@ -114,7 +135,7 @@ def finish (st : St) (seq : String) (modelHead : String) (modelPost : Option (Li
       else if distOp then
         (monitors seq pre real none outcome (realFlags res)).filter
           (fun m => m.endsWith "fill_within_limits" || m.endsWith "matched_receives_positive")
-      else monitors seq pre real q outcome (realFlags res)
+      else monitors seq pre real q outcome (realFlags res) lossless
     ({ st with orders := resetFills real }, d ++ mons)
 
 def handle (st : St) (seq : String) (f : List String) : St × List String :=
@@ -133,7 +154,9 @@ def handle (st : St) (seq : String) (f : List String) : St × List String :=
       match matchAtSinglePrice b p with
       | .panic => finish st seq s!"{mf}\tpanic\t-" none s!"{fma}\t{outcome}\t{qcd}" outcome qcd res
       | .noMatch => finish st seq s!"{mf}\tnomatch\t-" none s!"{fma}\t{outcome}\t{qcd}" outcome qcd res
-      | .ok b' q => finish st seq s!"{mf}\tok\t{q}" (some (project st.orders b'.orders)) s!"{fma}\t{outcome}\t{qcd}" outcome qcd res
+      | .ok b' q =>
+        let ll := match findMatchableAmount b p with | none => true | some x => ticksLossless b.sells x p
+        finish st seq s!"{mf}\tok\t{q}" (some (project st.orders b'.orders)) s!"{fma}\t{outcome}\t{qcd}" outcome qcd res (lossless := ll)
   | ["amm.op", "match", lp, dir, outcome, mp, qcd, res] =>
     match parseInt? lp with
     | none => (st, [s!"BAD\t{seq}\tmatch"])
@@ -147,6 +170,7 @@ def handle (st : St) (seq : String) (f : List String) : St × List String :=
         finish st seq s!"{md}\tnomatch\t-\t-" none s!"{dir}\t{outcome}\t{mp}\t{qcd}" outcome qcd res
       | .ok b' mpr q =>
         finish st seq s!"{md}\tok\t{mpr}\t{q}" (some (project st.orders b'.orders)) s!"{dir}\t{outcome}\t{mp}\t{qcd}" outcome qcd res
+          (lossless := matchLossless b lp)
   | ["amm.op", "dist", amt, p, outcome, qcd, res] =>
     match parseInt? amt, parseInt? p with
     | some amt, some p =>
@@ -166,6 +190,102 @@ def handle (st : St) (seq : String) (f : List String) : St × List String :=
         | some (o', q) =>
           finish st seq s!"{mm}\tok\t{q}" (some (project st.orders [o'])) s!"{mat}\t{outcome}\t{qcd}" outcome qcd res (fillOp := true)
     | _, _, _ => (st, [s!"BAD\t{seq}\tfill"])
+  | ["amm.op", "first", prec, fmp, outcome, qcd, res] =>
+    match parseNat? prec with
+    | none => (st, [s!"BAD\t{seq}\tfirst"])
+    | some prec =>
+      let b := newBook st.orders
+      let mf := match findMatchPrice (makeView b) prec with | none => "none" | some a => toString a
+      -- monitor: a found price is positive, on the tick grid and between the lowest sell and the highest buy price
+      let pm := match findMatchPrice (makeView b) prec with
+        | none => []
+        | some a => if monMatchPrice (makeView b) prec a then [] else [s!"MON\t{seq}\tfound_price_in_spread"]
+      let (st', out) := match matchFirstBatch b prec with
+        | .panic => finish st seq s!"{mf}\tpanic\t-" none s!"{fmp}\t{outcome}\t{qcd}" outcome qcd res
+        | .noMatch => finish st seq s!"{mf}\tnomatch\t-" none s!"{fmp}\t{outcome}\t{qcd}" outcome qcd res
+        | .ok b' q =>
+          let ll := match findMatchPrice (makeView b) prec with
+            | none => true
+            | some pr => match findMatchableAmount b pr with | none => true | some x => ticksLossless b.sells x pr
+          finish st seq s!"{mf}\tok\t{q}" (some (project st.orders b'.orders)) s!"{fmp}\t{outcome}\t{qcd}" outcome qcd res (lossless := ll)
+      (st', out ++ pm)
+  | ["amm.fmp", prec, r] =>
+    match parseNat? prec with
+    | none => (st, [s!"BAD\t{seq}\tfmp"])
+    | some prec =>
+      let v := makeView (newBook st.orders)
+      let m := match findMatchPrice v prec with | none => "none" | some a => toString a
+      let d := if m = r then [] else [s!"DIFF\t{seq}\tmodel={m}\timpl={r}"]
+      -- the monitor is evaluated on the REAL answer
+      let mon := match parseInt? r with
+        | some a => if monMatchPrice v prec a then [] else [s!"MON\t{seq}\tfound_price_in_spread"]
+        | none => if r = "none" && monCrossing v then [s!"MON\t{seq}\tfound_price_iff_crossing"] else []
+      (st, d ++ mon)
+  | ["amm.fmpx", prec, r] =>
+    match parseNat? prec with
+    | none => (st, [s!"BAD\t{seq}\tfmpx"])
+    | some prec =>
+      let m := match findMatchPrice (makeView (newBook st.orders)) prec with | none => "none" | some a => toString a
+      (st, if m = r then [] else [s!"DIFF\t{seq}\tmodel={m}\timpl={r}"])
+  | ["amm.view", price, hb, ls, bo, su] =>
+    match parseInt? price with
+    | none => (st, [s!"BAD\t{seq}\tview"])
+    | some price =>
+      let v := makeView (newBook st.orders)
+      let sh := fun (o : Option Int) => match o with | none => "none" | some a => toString a
+      let m := s!"{sh v.highestBuyPrice}\t{sh v.lowestSellPrice}\t{v.buyAmountOver price}\t{v.sellAmountUnder price}"
+      let r := s!"{hb}\t{ls}\t{bo}\t{su}"
+      (st, if m = r then [] else [s!"DIFF\t{seq}\tmodel={m}\timpl={r}"])
+  | ["amm.pool", rx, ry, lo, hi, prec, buys, sells] =>
+    match parseInt? rx, parseInt? ry, parseInt? lo, parseInt? hi, parseNat? prec with
+    | some rx, some ry, some lo, some hi, some prec =>
+      let sh := fun (l : List (Int × Int)) => ",".intercalate (l.map fun pa => s!"{pa.1}:{pa.2}")
+      let pl : BPool := ⟨rx, ry⟩
+      let m := s!"{sh (poolBuyOrders pl lo hi prec)}\t{sh (poolSellOrders pl lo hi prec)}"
+      let r := s!"{buys}\t{sells}"
+      let d := if m = r then [] else [s!"DIFF\t{seq}\tmodel={m}\timpl={r}"]
+      let parse := fun (t : String) => if t = "" then some [] else
+        (t.splitOn ",").mapM fun x => match x.splitOn ":" with
+          | [a, b] => do let a ← parseInt? a; let b ← parseInt? b; pure (a, b)
+          | _ => none
+      match parse buys, parse sells with
+      | some bl, some sl =>
+        let m1 := if monPoolBuys pl bl && monPoolSells pl sl then [] else [s!"MON\t{seq}\tpool_within_reserves_and_curve"]
+        (st, d ++ m1)
+      | _, _ => (st, [s!"BAD\t{seq}\tpool lists"])
+    | _, _, _, _, _ => (st, [s!"BAD\t{seq}\tpool"])
+  | ["amm.bp", fn, rx, ry, price, r] =>
+    match parseInt? rx, parseInt? ry, parseInt? price with
+    | some rx, some ry, some price =>
+      let pl : BPool := ⟨rx, ry⟩
+      let m : Option Int :=
+        if fn = "price" then pl.price
+        else if fn = "bo" then pl.buyAmountOver price
+        else if fn = "su" then pl.sellAmountUnder price
+        else if fn = "bt" then pl.buyAmountTo price
+        else if fn = "st" then pl.sellAmountTo price
+        else none
+      let ms := match m with | none => "panic" | some a => toString a
+      (st, if ms = r then [] else [s!"DIFF\t{seq}\tbp {fn} {rx} {ry} {price}\tmodel={ms}\timpl={r}"])
+    | _, _, _ => (st, [s!"BAD\t{seq}\tbp"])
+  | ["amm.tk", fn, prec, arg, r] =>
+    match parseNat? prec, parseInt? arg with
+    | some prec, some a =>
+      let m : Option Int :=
+        if fn = "down" then some (priceToDownTick a prec)
+        else if fn = "up" then some (upTick a prec)
+        else if fn = "ptup" then some (priceToUpTick a prec)
+        else if fn = "dn" then some (downTick a prec)
+        else if fn = "toidx" then some (tickToIndex a prec)
+        else if fn = "fromidx" then some (tickFromIndex a prec)
+        else if fn = "round" then some (roundPrice a prec)
+        else if fn = "hi" then some (highestTick prec)
+        else if fn = "lo" then some (lowestTick prec)
+        else none
+      match m with
+      | none => (st, [s!"BAD\t{seq}\ttk fn {fn}"])
+      | some m => (st, if toString m = r then [] else [s!"DIFF\t{seq}\ttk {fn} {prec} {arg}\tmodel={m}\timpl={r}"])
+    | _, _ => (st, [s!"BAD\t{seq}\ttk"])
   | _ => (st, [s!"BAD\t{seq}\tunknown amm line"])
 
 end Comdex.Drv.AmmMatch
